@@ -218,10 +218,12 @@ PROPS["C19"] = dict(
 PROPS["C13"] = dict(
     level="model_checking", exhaustive=True,
     stages=lambda tier, seed: [mc("seq", "MC_C13", "MC_C13_%s.cfg" % tier)],
-    rule="from MC_C13: all sequences of length 4 (quick) / 5 (thorough) over 12 checker elements (verify valid, bad "
+    rule="from MC_C13: all sequences of length 4 (quick) / 5 (thorough) over 13 checker elements (verify valid, bad "
          "signature, expired, no dot, header not JSON, no alg, NULL, empty, algorithm mismatch, callback failing then "
-         "restored, refused setkey, error_clear) on one checker, and over 6 builder elements (generate, failing "
-         "callback, key below the floor then restored, refused setkey, error_clear, claim change) on one builder; "
+         "restored, callback selecting another key for one call, refused setkey, error_clear) on a checker with "
+         "setkey and 5 elements on a checker whose keys only ever come from its callback, and over 7 builder elements "
+         "(generate, failing callback, callback selecting another key once, key below the floor then restored, refused "
+         "setkey, error_clear, claim change) on builders with and without setkey; "
          "every verify/generate is also performed on a freshly created twin configured by replaying the same "
          "configuration calls, and both results are logged. distinct = distinct sequences.",
     assumptions=ASSUME_COMMON + ["'identically configured' = the same sequence of configuration calls replayed on a new object"],
@@ -471,7 +473,7 @@ PROPS["C20"] = dict(
          "curve incl. twelve EC keys whose x, y or d has a leading zero byte, Ed25519, Ed448; private and public PEM; "
          "oct files of 32..512 bytes): one key, imported by the library without error, same public and private "
          "components (driver projection), fixed-width EC x/y/d; jwk2key of that JWKS, and the file it writes converted "
-         "again must still be the same key. distinct = distinct cells.",
+         "again must still be the same key; key2jwk with several files in one invocation (every order of an oct, an RSA, an EC and an Ed25519 file, all pairs incl. repeated types): the i-th JWK must denote the i-th file's key. distinct = distinct cells.",
     assumptions=ASSUME_COMMON + ["tool output is decoded by the Python runner (bin/vtools.py), which logs and never judges; key identity is decided by the driver's projection against the key it exported"],
     level_text="The exit-status relation is model-checked on the tool machine for every count up to 520; every cell "
                "is executed against the real tools and the logged exit statuses, token shapes, member widths and key "
